@@ -27,47 +27,48 @@ structure IsPrefixAnswer (S : Flat) (p : Key) (out : List (Key × Val)) : Prop w
   ascending : out.Pairwise (fun a b => a.1 < b.1)
   exact : ∀ k v, (k, v) ∈ out ↔ (p <+: k ∧ S k = some v)
 
+/-- strictly ascending lists with the same members are equal -/
+theorem ascending_ext : ∀ (a b : List (Key × Val)), a.Pairwise (fun a b => a.1 < b.1) →
+    b.Pairwise (fun a b => a.1 < b.1) → (∀ x, x ∈ a ↔ x ∈ b) → a = b := by
+  intro a
+  induction a with
+  | nil =>
+    intro b _ _ h
+    cases b with
+    | nil => rfl
+    | cons y _ => exact absurd ((h y).mpr List.mem_cons_self) (List.not_mem_nil)
+  | cons x xs ih =>
+    intro b pa pb h
+    cases b with
+    | nil => exact absurd ((h x).mp List.mem_cons_self) (List.not_mem_nil)
+    | cons y ys =>
+      obtain ⟨a1, a2⟩ := List.pairwise_cons.mp pa
+      obtain ⟨b1, b2⟩ := List.pairwise_cons.mp pb
+      have hxy : x = y := by
+        rcases List.mem_cons.mp ((h x).mp List.mem_cons_self) with e | hx
+        · exact e
+        · rcases List.mem_cons.mp ((h y).mpr List.mem_cons_self) with e | hy
+          · exact e.symm
+          · exact absurd (Key.lt_trans (b1 x hx) (a1 y hy)) (Key.lt_irrefl _)
+      subst hxy
+      congr 1
+      apply ih ys a2 b2
+      intro z
+      constructor
+      · intro hz
+        rcases List.mem_cons.mp ((h z).mp (List.mem_cons_of_mem _ hz)) with e | hz'
+        · exact absurd (e ▸ a1 z hz) (Key.lt_irrefl _)
+        · exact hz'
+      · intro hz
+        rcases List.mem_cons.mp ((h z).mpr (List.mem_cons_of_mem _ hz)) with e | hz'
+        · exact absurd (e ▸ b1 z hz) (Key.lt_irrefl _)
+        · exact hz'
+
 /-- the specification determines the answer -/
 theorem IsPrefixAnswer.unique {S : Flat} {p : Key} {a b : List (Key × Val)}
-    (ha : IsPrefixAnswer S p a) (hb : IsPrefixAnswer S p b) : a = b := by
-  have hmem : ∀ x, x ∈ a ↔ x ∈ b := fun x => by
-    rw [show x = (x.1, x.2) from rfl, ha.exact, hb.exact]
-  have key : ∀ (a b : List (Key × Val)), a.Pairwise (fun a b => a.1 < b.1) →
-      b.Pairwise (fun a b => a.1 < b.1) → (∀ x, x ∈ a ↔ x ∈ b) → a = b := by
-    intro a
-    induction a with
-    | nil =>
-      intro b _ _ h
-      cases b with
-      | nil => rfl
-      | cons y _ => exact absurd ((h y).mpr List.mem_cons_self) (List.not_mem_nil)
-    | cons x xs ih =>
-      intro b pa pb h
-      cases b with
-      | nil => exact absurd ((h x).mp List.mem_cons_self) (List.not_mem_nil)
-      | cons y ys =>
-        obtain ⟨a1, a2⟩ := List.pairwise_cons.mp pa
-        obtain ⟨b1, b2⟩ := List.pairwise_cons.mp pb
-        have hxy : x = y := by
-          rcases List.mem_cons.mp ((h x).mp List.mem_cons_self) with e | hx
-          · exact e
-          · rcases List.mem_cons.mp ((h y).mpr List.mem_cons_self) with e | hy
-            · exact e.symm
-            · exact absurd (Key.lt_trans (b1 x hx) (a1 y hy)) (Key.lt_irrefl _)
-        subst hxy
-        congr 1
-        apply ih ys a2 b2
-        intro z
-        constructor
-        · intro hz
-          rcases List.mem_cons.mp ((h z).mp (List.mem_cons_of_mem _ hz)) with e | hz'
-          · exact absurd (e ▸ a1 z hz) (Key.lt_irrefl _)
-          · exact hz'
-        · intro hz
-          rcases List.mem_cons.mp ((h z).mpr (List.mem_cons_of_mem _ hz)) with e | hz'
-          · exact absurd (e ▸ b1 z hz) (Key.lt_irrefl _)
-          · exact hz'
-  exact key a b ha.ascending hb.ascending hmem
+    (ha : IsPrefixAnswer S p a) (hb : IsPrefixAnswer S p b) : a = b :=
+  ascending_ext a b ha.ascending hb.ascending (fun x => by
+    rw [show x = (x.1, x.2) from rfl, ha.exact, hb.exact])
 
 private theorem prefix_answer_of_slot {p : Key} {m : FMap} (hs : Sorted m) (slot : Key → Option Slot)
     (hg : ∀ k, m.get k = if p.isPrefixOf k then slot k else none) :
